@@ -45,11 +45,33 @@ NEEDS = {
  "C19-2": "v1.1.5binary top node truncated exactly at an element boundary (exhausted buffer reads as length 0)",
 }
 V = os.path.dirname(os.path.dirname(os.path.abspath(__file__)))
+def first_lines(path):
+    try: return " ".join(l.strip() for l in open(path).read().splitlines() if l.strip())[:600]
+    except Exception: return ""
 out = []
-for f in sorted(glob.glob("/tmp/seedres/C??-?.json")):
+ROUNDS = [("/tmp/seedres", "/tmp/seedres1b", ""), ("/tmp/seedres2", "/tmp/seedres2b", "b")]
+files = []
+for base, later, suffix in ROUNDS:
+    names = set(os.path.basename(x) for x in glob.glob(base + "/C??-?.json")) | set(os.path.basename(x) for x in glob.glob(later + "/C??-?.json"))
+    for n in sorted(names): files.append((os.path.join(base, n), os.path.join(later, n), suffix))
+for f, f2, suffix in files:
     sid = os.path.basename(f)[:-5]
+    r = None
     try: r = json.load(open(f))
-    except Exception as e: print(sid, "unreadable", e); continue
+    except Exception as e: pass
+    r2 = None
+    if os.path.exists(f2):
+        try: r2 = json.load(open(f2))
+        except Exception: pass
+    if r is None and r2 is None: print(sid + suffix, "unreadable"); continue
+    first_checks = (r or {}).get("checks", {})
+    if r2 is not None:
+        # a later evaluation (after checks were strengthened, or after a rebase / a flaky suite run): its confirmations count
+        base_r = dict(r or {}); base_r.update({k: v for k, v in r2.items() if k != "checks"})
+        merged = dict(first_checks); merged.update(r2.get("checks", {}))
+        base_r["checks"] = merged; base_r["first_run_checks"] = first_checks; base_r["rerun_checks"] = r2.get("checks", {})
+        r = base_r
+    sid = sid[:3] + suffix + sid[3:]
     ok = all(r.get(k) for k in ("applies", "builds", "suite_passes_with_change", "demo_fails_with_change", "demo_passes_without_change"))
     src = r["dir"]
     if not ok:
@@ -66,12 +88,17 @@ for f in sorted(glob.glob("/tmp/seedres/C??-?.json")):
     caught = sorted(k for k, v in r.get("checks", {}).items() if v["exit"] == 1)
     missed = sorted(k for k, v in r.get("checks", {}).items() if v["exit"] == 0)
     incon = sorted(k for k, v in r.get("checks", {}).items() if v["exit"] not in (0, 1))
-    meta = {"id": sid, "breaks_property": sid[:3], "needs_to_manifest": NEEDS.get(sid, ""),
+    meta = {"id": sid, "breaks_property": sid[:3], "needs_to_manifest": NEEDS.get(sid, "") or first_lines(os.path.join(src, "notes.md")),
             "author": "fresh sub-agent given only the property text and its own scratch worktree of /repo",
             "confirmed_by_me": {"patch_applies_to": "/repo HEAD at evaluation time", "library_builds": True, "repo_suite_passes_with_change": True,
                                 "demonstration_fails_with_change": True, "demonstration_passes_without_change": True,
                                 "how": "tools/seed_eval.py on a scratch worktree (git apply; go test -vet=off -count=1 ./...; demo placed per its package clause; go test -run <its tests>)"},
             "checks_run_quick_tier": r.get("checks", {}), "caught_by": caught, "not_caught_by": missed, "inconclusive": incon}
+    if "rerun_checks" in r:
+        fr = r.get("first_run_checks", {})
+        meta["history"] = {"first_run_caught_by": sorted(k for k, v in fr.items() if v["exit"] == 1),
+                           "first_run_missed_by_own_check": fr.get(sid[:3], {}).get("exit") == 0,
+                           "rerun_after_strengthening": {k: v["exit"] for k, v in r["rerun_checks"].items()}}
     prev = os.path.join(dst, "meta.json")
     if os.path.exists(prev):
         old = json.load(open(prev))
